@@ -10,6 +10,8 @@
    abandoned iterators, any hash function and table size) the pointer-level model never reaches UseAfterFree,
    OutOfBounds, RefUnderflow or OutOfFuel - no error state at all (MapHashProofs3.v, invariant GoodP: refcount = presence + parked iterators >= 1,
    parked nodes are linked, linked nodes are live cells).
+   C18_hashtable_survivors_dictionary - after any history, once all iterators are freed, the table behaves exactly
+   like a dictionary of the surviving entries (MapHashProofs4.v).
    Otherwise PARTIAL for the repaired code: proved are (1) the witnesses no longer fail, (2) on layer A (MapRefModel.v, run
    against the library on every check) an iterator only ever returns entries that are present, with their
    current value, and nothing after it reported the end, (3) C17's theorems, which cover traversals abandoned via
@@ -19,7 +21,7 @@
    iterators. *)
 From Coq Require Import ZArith List NArith Bool.
 Require Import Verif.gen.Consts_map Verif.MapSpec Verif.MapHashModel Verif.MapSkipModel Verif.MapRefModel
-  Verif.MapRefProofs Verif.MapHashProofs Verif.MapHashProofs2 Verif.MapHashProofs3 Verif.MapSkipProofs.
+  Verif.MapRefProofs Verif.MapHashProofs Verif.MapHashProofs2 Verif.MapHashProofs3 Verif.MapHashProofs4 Verif.MapSkipProofs.
 Import ListNotations.
 
 (* hashtable: put a; iterator parked on a; rm a; get a (still answers 1); rm a again (succeeds, frees the node);
@@ -44,6 +46,25 @@ Print Assumptions C18_hashtable_witness_fixed.
 Theorem C18_hashtable_memory_safe : forall hf rc m ops, snd (h_run v_fixed hf rc (h_create m) ops) = None.
 Proof. exact hash_c18_no_error. Qed.
 Print Assumptions C18_hashtable_memory_safe.
+
+(* HASHTABLE, last clause of C18: after ANY history - iterators created, stepped, abandoned, entries removed and added
+   under them - once every iterator has been freed (and the map is not destroyed) the pointer-level table is a
+   dictionary of the surviving entries again: with the specification state whose dictionary is exactly the table's
+   live (key, value) entries and whose subscriptions are the table's, every further history of put/get/rm/count/
+   foreach/notify/destroy runs in lock step with the specification (outputs and notifier calls, C17's relation) *)
+Theorem C18_hashtable_survivors_dictionary : forall hf rc m ops1 s,
+  h_state_after v_fixed hf rc (h_create m) ops1 = Ok s -> h_iters s = [] -> h_alive s = true ->
+  s_dict (spec_of (abs s)) = live_kv (abs s) /\
+  forall ops2, no_iter_ops ops2 = true -> b_lockstep hf rc s (spec_of (abs s)) ops2.
+Proof. exact hash_c18_survivors. Qed.
+Print Assumptions C18_hashtable_survivors_dictionary.
+
+(* ... because the table then satisfies the representation invariant of the dictionary refinement: no removed node is
+   left, every reference count is 1, keys are distinct, the count is the number of entries *)
+Theorem C18_hashtable_survivors_invariant : forall hf rc m ops s,
+  h_state_after v_fixed hf rc (h_create m) ops = Ok s -> h_iters s = [] -> h_alive s = true -> Good hf s.
+Proof. exact hash_survivors_good. Qed.
+Print Assumptions C18_hashtable_survivors_invariant.
 
 (* the invariant behind it, one API call from any state that satisfies it (or from a destroyed map) *)
 Theorem C18_hashtable_invariant_step : forall hf rc s o, TopInv s ->
